@@ -217,13 +217,20 @@ json_number(Number) -->
         (   parsing ->
             json_sign_noplus(Sign),
             json_integer(Integer),
-            json_fraction(Fraction),
+            json_fraction(Fraction, Digits),
             json_exponent(Exponent),
-            { (   Exponent >= 0 ->
-                  Base = 10
-              ;   Base = 10.0
-              ),
-              Number is Sign * (Integer + Fraction) * Base ^ Exponent }
+            { (   Digits =:= 0, Exponent >= 0 ->
+                  Number is Sign * Integer * 10 ^ Exponent
+              ;   % The decimal significand and exponent are converted to a float
+                  % in a single, correctly rounded step.
+                  Significand is Integer * 10 ^ Digits + Fraction,
+                  Exponent10 is Exponent - Digits,
+                  number_chars(Significand, Cs0),
+                  number_chars(Exponent10, Es),
+                  append(Cs0, ['.','0',e|Es], Cs),
+                  number_chars(Float, Cs),
+                  Number is Sign * Float
+              ) }
         ;   { number_chars(Number, NumberChars) },
             NumberChars
         ).
@@ -254,11 +261,11 @@ json_onenine(7) --> "7".
 json_onenine(8) --> "8".
 json_onenine(9) --> "9".
 
-json_fraction(0)        --> "".
-json_fraction(Fraction) -->
+json_fraction(0, 0)             --> "".
+json_fraction(Fraction, Digits) -->
         ".",
-        json_digits(Value, Power),
-        { Fraction is Value / 10.0 ^ (Power + 1) }.
+        json_digits(Fraction, Power),
+        { Digits is Power + 1 }.
 
 json_exponent(0)        --> "".
 json_exponent(Exponent) -->
